@@ -1,13 +1,16 @@
-(* Executable judge for C19 correspondence cases: one request against one
-   generated file system (frontend/dist, canary files and directories outside
-   it, symbolic links anywhere).  The oracle never resolves a link: it looks
-   at the bytes of the real answer and at where regular files physically lie. *)
+(* Executable judge for C19 correspondence cases: one request (method, raw
+   target, header lines) against one generated file system (frontend/dist,
+   canary files and directories outside it, symbolic links anywhere).  The
+   oracle never resolves a link: it looks at the bytes of the real answer, at
+   where regular files physically lie, and at EVERY Access-Control-* header of
+   the real response with all of its values. *)
 From PV Require Import Base.Bytes Run.Verdict.
 From PV Require Export Models.Assets.   (* case terms mention Reg / Dir *)
 
 Record case19 := {
   raw      : bytes;                 (* request target as sent (escaped path) *)
-  origin   : option bytes;          (* Origin header; None = header absent *)
+  meth     : bytes;                 (* request method as sent *)
+  hdrs     : list (bytes * bytes);  (* every header line after Host, in the order sent: (name as sent, value) *)
   wl       : list bytes;            (* Module.Whitelist *)
   files    : list (bytes * node);   (* the generated file system: clean rooted physical path below the
                                        temporary root -> regular file | directory | symbolic link;
@@ -18,14 +21,26 @@ Record case19 := {
   go_clean     : bytes;             (* path.Clean of the rooted decoded path *)
   go_clean_rel : bytes;             (* path.Clean of the same without its leading slash *)
   go_mux   : nat;                   (* mux.Handler: 0 pass | 1 redirect | 2 not found | 3 none *)
-  go_class : nat;                   (* status: 0 = 200 | 1 = 301 | 2 = 404 | 3 = 500 | 4 = 400 | 5 = other, panic *)
+  go_class : nat;                   (* status: 0 = 200 | 1 = 301 | 2 = 404 | 3 = 500 | 4 = 400 | 6 = 206 |
+                                       5 = any other (204, 304, 412, 416, ...), panic *)
   go_body  : bytes;
-  go_acao  : option bytes;          (* first Access-Control-Allow-Origin value; None = absent *)
-  go_acao_n : nat                   (* number of values of that header *)
+  go_ac    : list (bytes * list bytes) (* EVERY response header whose name starts with Access-Control-
+                                          (any case): canonical name, all values; sorted by name *)
 }.
 
-Definition hdr_of (c : case19) : bytes :=
-  match origin c with Some o => o | None => [] end.
+(* the values of all Origin lines of the request (names compare case-insensitively) *)
+Definition req_origins (c : case19) : list bytes := header_values h_origin (hdrs c).
+
+Definition is_head (c : case19) : bool := beqb (meth c) m_head.
+
+(* conditional and range requests: serveContent's preconditions and ranges
+   are outside the model; where they matter ([served_file] below) a case is
+   judged by the oracle, and the parts of the model that do not depend on
+   them (decoding, mux, CORS) are compared *)
+Definition conditional (c : case19) : bool :=
+  existsb (fun h => existsb (name_eqb (fst h))
+                      [B "Range"; B "If-Modified-Since"; B "If-None-Match"; B "If-Match";
+                       B "If-Unmodified-Since"; B "If-Range"]) (hdrs c).
 
 (* ---- the property itself on Go's own output, from S only: no use of M and
    no link resolution at all.  What may be served is decided by WHERE a
@@ -51,10 +66,16 @@ Definition no_canary (c : case19) : bool :=
                     end) (files c).
 
 (* a 200 body is exactly the content of a regular file that lies inside
-   dist; any other answer contains the content of no file at all *)
+   dist (nothing at all for HEAD), a 206 body is a part of one; any other
+   answer contains the content of no file at all *)
 Definition content_ok (c : case19) : bool :=
   match go_class c with
-  | O => is_inside_file c (go_body c)
+  | O => is_inside_file c (go_body c) || (is_head c && negb (nonemptyb (go_body c)))
+  | 6 => (* 206: a part of a regular file that lies inside dist *)
+         existsb (fun e => match reg_content e with
+                           | Some b => phys_inside (fst e) && containsb (go_body c) b
+                           | None => false
+                           end) (files c)
   | _ => forallb (fun e => match reg_content e with
                            | Some b => negb (nonemptyb b && containsb b (go_body c))
                            | None => true
@@ -69,13 +90,13 @@ Definition no_listing_ok (c : case19) : bool :=
         containsb (B "<pre>") (go_body c) && containsb (B "</pre>") (go_body c) &&
         negb (is_inside_file c (go_body c))).
 
-(* the header is set only to the request's Origin and only when whitelisted *)
+(* the header is set only to the request's Origin and only when whitelisted:
+   S = [ac_spec] (Models/Assets.v; C19_ac_spec_sound says what it means) on
+   every Access-Control-* header of the real response, whatever the method,
+   the other request headers and the status are.  Only the whitelist and the
+   values of the request's Origin lines enter. *)
 Definition acao_ok (c : case19) : bool :=
-  match go_acao c with
-  | None => Nat.eqb (go_acao_n c) 0
-  | Some v => opt_beqb (cors_spec_req (wl c) (origin_of (hdr_of c))) (Some v)
-              && Nat.eqb (go_acao_n c) 1
-  end.
+  forallb (fun h => is_ac_name (fst h)) (go_ac c) && ac_spec (wl c) (req_origins c) (go_ac c).
 
 Definition oracle19 (c : case19) : bool := no_canary c && content_ok c && no_listing_ok c && acao_ok c.
 
@@ -86,7 +107,7 @@ Definition mux_code (m : muxd) : nat :=
 
 Definition answer_agrees (a : answer) (c : case19) : bool :=
   match a with
-  | File b => Nat.eqb (go_class c) 0 && beqb b (go_body c)
+  | File _ => Nat.eqb (go_class c) 0 && opt_beqb (sent_body (meth c) a) (Some (go_body c))
   | Listing => false
   | Redirect => Nat.eqb (go_class c) 1
   | NotFound => Nat.eqb (go_class c) 2
@@ -94,18 +115,36 @@ Definition answer_agrees (a : answer) (c : case19) : bool :=
   | BadRequest => Nat.eqb (go_class c) 4
   end.
 
-Definition agree19 (c : case19) : bool :=
-  answer_agrees (serve (files c) (raw c)) c &&
+Fixpoint list_beqb (a b : list bytes) : bool :=
+  match a, b with
+  | [], [] => true
+  | x :: a', y :: b' => beqb x y && list_beqb a' b'
+  | _, _ => false
+  end.
+
+Fixpoint ac_beqb (a b : list (bytes * list bytes)) : bool :=
+  match a, b with
+  | [], [] => true
+  | x :: a', y :: b' => beqb (fst x) (fst y) && list_beqb (snd x) (snd y) && ac_beqb a' b'
+  | _, _ => false
+  end.
+
+(* everything but the answer itself: decoding, path.Clean, ServeMux, and the
+   complete list of Access-Control-* response headers *)
+Definition agree_rest (c : case19) : bool :=
   if go_parsed c then
     opt_beqb (pct_decode (raw c)) (Some (go_dec c)) &&      (* net/url decoding *)
     beqb (raw c) (go_ep c) &&                               (* the mux sees what was sent *)
     beqb (clean (rooted (go_dec c))) (go_clean c) &&        (* path.Clean, rooted *)
     beqb (clean (tl (rooted (go_dec c)))) (go_clean_rel c) && (* path.Clean, relative *)
     Nat.eqb (mux_code (mux_decide (raw c))) (go_mux c) &&   (* ServeMux *)
-    opt_beqb (acao_at (mux_decide (raw c)) (wl c) (hdr_of c)) (go_acao c)
+    ac_beqb (resp_ac (mux_decide (raw c)) (wl c) (meth c) (hdrs c)) (go_ac c)
   else
     opt_beqb (pct_decode (raw c)) None && Nat.eqb (go_mux c) 3 &&
-    match go_acao c with None => true | Some _ => false end.
+    match go_ac c with [] => true | _ => false end.
+
+Definition agree19 (c : case19) : bool :=
+  answer_agrees (serve (files c) (raw c)) c && agree_rest c.
 
 (* OS limits that the tree model does not have: NAME_MAX / PATH_MAX *)
 Definition too_long (c : case19) : bool :=
@@ -132,20 +171,30 @@ Definition escaped_file (c : case19) : option bytes :=
 
 Definition known_escape (c : case19) : bool :=
   match escaped_file c with
-  | Some b => go_parsed c && Nat.eqb (go_class c) 0 && beqb b (go_body c) &&
-              agree19 c && acao_ok c && no_listing_ok c
+  | Some b => go_parsed c &&
+              ((Nat.eqb (go_class c) 0 && beqb b (go_body c) && agree19 c) ||
+               (* a Range request: 206 with a part of that file *)
+               (conditional c && Nat.eqb (go_class c) 6 && containsb (go_body c) b && agree_rest c)) &&
+              acao_ok c && no_listing_ok c
   | None => false
   end.
+
+(* the preconditions and ranges are looked at by serveContent only, that is
+   when a regular file is about to be sent; every other answer of a
+   conditional request is compared with the model in full *)
+Definition served_file (c : case19) : bool :=
+  match serve (files c) (raw c) with File _ => true | _ => false end.
 
 Definition judge (c : case19) : nat :=
   if known_escape c then v_known 1
   else if negb (oracle19 c) then v_violation
   else if too_long c || above_root c then v_unmodelled
+  else if conditional c && served_file c then (if agree_rest c then v_unmodelled else v_drift)
   else verdict true (oracle19 c) (agree19 c).
 
 (* diagnostic view used by replays *)
 Definition model_says (c : case19) :=
   (serve (files c) (raw c), mux_decide (raw c), pct_decode (raw c),
-   acao_at (mux_decide (raw c)) (wl c) (hdr_of c),
+   resp_ac (mux_decide (raw c)) (wl c) (meth c) (hdrs c), req_origins c,
    os_resolve (files c) (resolve (go_dec c)),
    (no_canary c, content_ok c, no_listing_ok c, acao_ok c)).
